@@ -3,6 +3,14 @@
 import json, subprocess
 
 CHECKS = {
+ "C19": dict(level="exploration", design="§4 C19",
+   technique="runtime monitoring under the Go race detector: 4-12 real goroutines with one connection each, store-injected delays, race-log attribution per case, decoded stamp ownership, per-connection deadline attribution, M-row model of merged and own views",
+   text="Independent seeded statement streams (writes, transactions, refresh, version, old-cutoff vacuum, drop/create) run concurrently on shared and separate prefixes, three repetitions per case, built with -race; any data race report, worker death or hang is a violation; every decoded stamp of a connection's own keys must come from its own write_time range, deadline errors may only appear on the connection whose deadline expired, merged rows per prefix and each connection's own view must equal the model.",
+   note="The race detector sees only executed interleavings (counted as distinct request arrival orders); environment not scrubbed (AWS_CA_BUNDLE set); one slice uses the built-in bucket without any hook."),
+ "C20": dict(level="exploration", design="§4 C20",
+   technique="runtime monitoring: grammar-derived expectation (must accept / must reject / either-but-consistent) vs CREATE outcome, pragma_table_info, registry state, request log and row round trip",
+   text="Generated argument lists in three classes; accepted lists must declare exactly the specified names, order, key and NOT NULL flags, enforce NOT NULL and return rows under the specified names; rejected lists must leave no table registered (the name is immediately reusable) and no object written; ambiguous lists are only checked for consistency.",
+   note="Expectation derived from the README argument reference and the module's usage text; tables without PRIMARY KEY compare only their visible columns."),
  "C17": dict(level="exploration", design="§4 C17",
    technique="runtime monitoring: state-based reference mirror of the kv last-write/tombstone rules compared with Get, full cursor walks, Diff and TraceHistory after every step of random multi-handle histories on the public kv API",
    text="2-4 kv handles on one prefix run Set/Tombstone/RemoveTombstones/Commit/Clone/re-Open with distinct non-monotone times in default, conflict-callback and custom-merge modes, JSON and gob version objects, branch factors 2..4096; after every step the acting handle's Get results and complete cursor walk (values, times, earliest tombstones) must equal the mirror, sampled Diffs must report exactly the keys whose visible value differs, TraceHistory must start at the current value, yield only values ever set for the key and strictly decreasing times, and the conflict callback must only see two different non-tombstone values.",
